@@ -5,14 +5,19 @@
  * checked on the library's own results.
  *
  * Case index -> workload (a pure function of the index, values from the case PRNG):
- *   idx%10 in 0..4  product family.  e = idx/10*5 + idx%10 walks a fixed bijective shuffle of the
+ *   idx%12 in 0..4  product family.  e = idx/12*5 + idx%12 walks a fixed bijective shuffle of the
  *                   18^3 shape triples (m,k,n in 0..17) x 4 value scales {1e-6, 1, 1e6, mixed}:
  *                   23328 consecutive e values enumerate the whole grid once (any 5832 consecutive
  *                   e values enumerate every shape triple once).  thorough = 1500000 product cases =
  *                   64 passes; quick = 50000 = the whole grid twice.
- *   idx%10 in 5,6   matrix kernels (transpose, trace, norms, column/row statistics, covariance, sort)
- *   idx%10 == 7     vector kernels
- *   idx%10 in 8,9   tensor kernels (1..4 slices)
+ *   idx%12 in 5,6   matrix kernels (transpose, trace, norms, column/row statistics, covariance, sort)
+ *   idx%12 == 7     vector kernels (incl. DVectorSDEV)
+ *   idx%12 in 8,9   tensor kernels (1..4 slices)
+ *   idx%12 == 10    matrix statistics: MatrixColDescStat (13 descriptive statistics per column),
+ *                   PearsonCorrelMatrix, SpearmanCorrelMatrix (tie-free data), MatrixRowCenterScaling,
+ *                   MatrixSVNScaling, MatrixGetMaxValueIndex / MatrixGetMinValueIndex
+ *   idx%12 == 11    element-wise transforms (Matrix2ABSMatrix, Matrix2SquareMatrix, Matrix2SQRTMatrix,
+ *                   Matrix2LogMatrix), GenIdentityMatrix, DVectorTransposedMatrixDivision
  *
  * Tolerance of every accumulated quantity: TOLC * eps * (sum of the absolute values of the terms of
  * the definition), i.e. the classical forward bound gamma_n * sum|terms| with n <= 289; deviations
@@ -22,7 +27,28 @@
  * MatrixColAverage's documented quirk (a column SUM with |sum| < 1e-6 is reported as mean 0) is
  * accepted as an alternative value wherever the reference column sum is inside that window
  * (MatrixColAverage, TensorColAverage, MatrixCovariance); it is counted, not hidden.
- * No MISSING-coded values are fed to these kernels (that is C10's business). */
+ * No MISSING-coded values are fed to these kernels (that is C10's business; 99999999 is outside the
+ * value domain 1e-6..1e6 of this property).
+ *
+ * Definitions the added kernels are held to (read from their code and comments):
+ *   MatrixColDescStat   ds is (columns x 13): [0] mean, [1] median, [2] harmonic mean rows/sum(1/x), [3] population
+ *                       variance, [4] sample variance, [5] population sd, [6] sample sd, [7] 100*sd_pop/mean,
+ *                       [8] 100*sd_sample/mean, [9] min, [10] max, [11] number of zeros, [12] number of missing codes.
+ *                       Sample statistics need >= 2 rows; the harmonic mean needs a column without zeros and the
+ *                       coefficients of variation a non-zero mean (not judged elsewhere, also not where the sum they
+ *                       divide by cancels to rounding level).  The zero counter uses |x| < 1e-6: columns holding values in
+ *                       (0, 1e-6] (below the value domain) are counted, not judged, for that clause.
+ *   PearsonCorrelMatrix header "pearson correlation matrix", comment: sum (x-mx)(y-my) / sqrt(sum (x-mx)^2 sum (y-my)^2);
+ *                       symmetric, unit diagonal, entries in [-1,1]; pairs with a constant column are not judged; the
+ *                       means come from MatrixColAverage, so its zero-snap is accepted as an alternative mean.
+ *   SpearmanCorrelMatrix 1 - 6 sum d^2 / (n (n^2-1)) on the ranks of tie-free columns, >= 2 rows.
+ *   MatrixRowCenterScaling  x / (row sum) (what its code and its unit test say), rows whose sum cancels are not judged.
+ *   MatrixSVNScaling    (x - row mean) / row sample sd, >= 2 columns, rows without spread are not judged.
+ *   MatrixGetMax/MinValueIndex  the cell addressed holds the maximum/minimum of the matrix (>= 1 row and column).
+ *   Matrix2LogMatrix    log10(x + 1), fed x > -1;  Matrix2SQRTMatrix fed x >= 0.
+ *   GenIdentityMatrix   on a freshly created (zero) square matrix.
+ *   DVectorTransposedMatrixDivision  r m = v for square m with condition number <= 4 (the inversion itself is C12's).
+ *   DVectorSDEV         no normalisation is documented: the population (1/n) or the sample (1/(n-1)) value is accepted. */
 #include "drv_util.h"
 
 #define EPS 2.220446049250313e-16L
@@ -31,11 +57,13 @@
 #define NE (4 * NT)
 #define POISON 777.25
 
-static long ncases(int tier) { return tier ? 3000000 : 100000; }
+static long ncases(int tier) { return tier ? 3600000 : 120000; }
 
 enum { MX_PROD, MX_PROD_PLAIN, MX_PROD_UNR, MX_LAW_T, MX_LAW_DIST, MX_MATVEC, MX_VECMAT, MX_OUTER, MX_TRACE, MX_NORM,
        MX_NORMALIZE, MX_COLAVG, MX_ROWAVG, MX_COLSD, MX_COLVAR, MX_COLRMS, MX_CENTER, MX_COV, MX_PSD, MX_VDOT, MX_VMOD,
-       MX_VNORM, MX_VSUM, MX_VMEAN, MX_T_DVT, MX_T_TMD, MX_T_KRON, MX_T_TTV, MX_T_COLAVG, MX_T_COLSD, MX_T_CENTER, NMX };
+       MX_VNORM, MX_VSUM, MX_VMEAN, MX_T_DVT, MX_T_TMD, MX_T_KRON, MX_T_TTV, MX_T_COLAVG, MX_T_COLSD, MX_T_CENTER,
+       MX_DS_AVG, MX_DS_HARM, MX_DS_VAR, MX_DS_SD, MX_DS_CV, MX_PEARSON, MX_SPEARMAN, MX_ROWCS, MX_SVN, MX_EW_SQUARE, MX_EW_SQRT,
+       MX_EW_LOG, MX_VTMDIV, MX_VSDEV, NMX };
 static const char *MXNAME[NMX] = {
   "max_dev_MatrixDotProduct_eps_sumabs", "max_dev_MatrixDotProduct_plain_eps_sumabs", "max_dev_MatrixDotProduct_unrolled_eps_sumabs",
   "max_dev_law_transpose_eps_sumabs", "max_dev_law_distributive_eps_sumabs", "max_dev_MatrixDVectorDotProduct_eps_sumabs",
@@ -46,7 +74,12 @@ static const char *MXNAME[NMX] = {
   "max_dev_DvectorModule_eps_rel", "max_dev_DVectNorm_eps_rel", "max_dev_DVectorSumDiff_ulp", "max_dev_DVectorMean_eps_meanabs",
   "max_dev_DvectorTensorDotProduct_eps_sumabs", "max_dev_TensorMatrixDotProduct_eps_sumabs", "max_dev_KronekerProductVectorMatrix_ulp",
   "max_dev_TransposedTensorDVectorProduct_eps_sumabs", "max_dev_TensorColAverage_eps_meanabs", "max_dev_TensorColSDEV_eps_rel",
-  "max_dev_MeanCenteredTensor_eps_colmax" };
+  "max_dev_MeanCenteredTensor_eps_colmax",
+  "max_dev_MatrixColDescStat_mean_eps_meanabs", "max_dev_MatrixColDescStat_harmonic_eps_cond", "max_dev_MatrixColDescStat_variance_eps_rel",
+  "max_dev_MatrixColDescStat_sd_eps_rel", "max_dev_MatrixColDescStat_cv_eps_cond", "max_dev_PearsonCorrelMatrix_eps_cond",
+  "max_dev_SpearmanCorrelMatrix_eps", "max_dev_MatrixRowCenterScaling_eps_cond", "max_dev_MatrixSVNScaling_eps_cond",
+  "max_dev_Matrix2SquareMatrix_eps_rel", "max_dev_Matrix2SQRTMatrix_eps_rel", "max_dev_Matrix2LogMatrix_eps_abs1",
+  "max_dev_DVectorTransposedMatrixDivision_eps_cond_norm", "max_dev_DVectorSDEV_eps_rel" };
 static double g_mx[NMX];
 
 /* |got - ref| <= TOLC * eps * scale ; scale == 0 demands equality.  Records the deviation in units of eps*scale. */
@@ -525,6 +558,24 @@ static void case_vector(vh_ctx *c)
     DelDVector(&d);
     free(sorted);
   }
+  if (n >= 2) {   /* standard deviation: the normalisation is not documented, both textbook conventions are accepted */
+    ld mean = sum / n, v = 0, sp, ss;
+    double sd = POISON;
+    int okp, oks;
+    for (i = 0; i < n; i++) v += ((ld)a->data[i] - mean) * ((ld)a->data[i] - mean);
+    sp = sqrtl(v / n); ss = sqrtl(v / (n - 1));
+    d = dvec_dup(a);
+    DVectorSDEV(d, &sd);
+    okp = fabsl((ld)sd - sp) <= fabsl((ld)sd - ss);
+    oks = !okp;
+    if (!near_(MX_VSDEV, sd, okp ? sp : ss, (okp ? sp : ss) + suma / n))
+      vh_fail(c, "DVectorSDEV|value", "%.17g, population sd %.17Lg, sample sd %.17Lg (n=%zu)", sd, sp, ss, n);
+    else vh_obs(oks ? "dvectorsdev_sample_normalisation" : "dvectorsdev_population_normalisation", 1);
+    if (dvector_maxdiff(d, a) != 0) vh_fail(c, "DVectorSDEV|input-modified", "the operand changed (n=%zu)", n);
+    DelDVector(&d);
+    vh_obs("calls_DVectorSDEV", 1);
+    vh_obs("kernel_calls", 1);
+  }
   d = dvec_dup(a);
   DVectorSort(d);
   if (d->size != n) vh_fail(c, "DVectorSort|shape", "size %zu expected %zu", d->size, n);
@@ -643,14 +694,381 @@ tr_done:
   DelTensor(&t); DelDVector(&v); DelDVector(&u); DelMatrix(&M2);
 }
 
+/* ------------------------------------------------------------------------------------------ matrix statistics */
+/* output container of the kernels that resize their result: empty, or a stale matrix of some other shape */
+static matrix *out_container(vh_ctx *c)
+{
+  matrix *m;
+  if (vh_coin(c, 0.5)) { initMatrix(&m); return m; }
+  return poison_matrix((size_t)vh_int(c, 1, 5), (size_t)vh_int(c, 1, 5));   /* (a stale r x 0 container is leaked by ResizeMatrix: C14's business) */
+}
+/* sum (x-mx)(y-my) / sqrt(sum (x-mx)^2 sum (y-my)^2) for columns k, j about the given means; *cond is the amplification of the
+   rounding of the centred columns: 1 + sqrt(n) sum|x| / |x-mx| + sqrt(n) sum|y| / |y-my| */
+static int pearson_ref(matrix *M, size_t k, size_t j, ld mk, ld mj, const colref *ck, const colref *cj, ld *rho, ld *ab, ld *cond)
+{
+  size_t i, n = M->row;
+  ld s = 0, a = 0, b = 0;
+  for (i = 0; i < n; i++) { ld x = (ld)M->data[i][k] - mk, y = (ld)M->data[i][j] - mj; s += x * y; a += x * x; b += y * y; }
+  *ab = a * b;
+  if (!(a > 0) || !(b > 0)) return 0;
+  *rho = s / sqrtl(a * b);
+  *cond = 1 + sqrtl((ld)n) * (ck->sumabs + n * fabsl(mk)) / sqrtl(a) + sqrtl((ld)n) * (cj->sumabs + n * fabsl(mj)) / sqrtl(b);
+  return 1;
+}
+static void check_pearson(vh_ctx *c, matrix *M, const colref *cr)
+{
+  size_t r = M->row, w = M->col, k, j;
+  matrix *P = out_container(c);
+  int failed_v = 0, failed_r = 0;
+  PearsonCorrelMatrix(M, P);
+  vh_obs("calls_PearsonCorrelMatrix", 1);
+  if (P->row != w || P->col != w) { vh_fail(c, "PearsonCorrelMatrix|shape", "%zux%zu for %zu columns", P->row, P->col, w); DelMatrix(&P); return; }
+  for (k = 0; k < w; k++) {
+    if (P->data[k][k] != 1.0) { vh_fail(c, "PearsonCorrelMatrix|unit-diagonal", "r[%zu][%zu] = %.17g (%zux%zu)", k, k, P->data[k][k], r, w); break; }
+  }
+  for (k = 0; k < w; k++) for (j = k + 1; j < w; j++) {
+    ld rho[4], ab[4], cond[4], abmin = INFINITY, best = INFINITY;
+    int ok[4], a, nalt = 0, bi = -1, judged = 0;
+    double got = P->data[k][j], mxsave;
+    if (memcmp(&P->data[k][j], &P->data[j][k], sizeof(double))) { vh_fail(c, "PearsonCorrelMatrix|law-symmetric", "r[%zu][%zu] = %.17g but r[%zu][%zu] = %.17g", k, j, got, j, k, P->data[j][k]); k = w; break; }
+    /* the means are MatrixColAverage's: inside its zero-snap window either value is the documented one */
+    for (a = 0; a < 4; a++) {
+      if (((a & 1) && !(cr[k].maysnap && cr[k].mean != 0)) || ((a & 2) && !(cr[j].maysnap && cr[j].mean != 0))) { ok[a] = -1; continue; }
+      ok[a] = pearson_ref(M, k, j, (a & 1) ? 0 : cr[k].mean, (a & 2) ? 0 : cr[j].mean, &cr[k], &cr[j], &rho[a], &ab[a], &cond[a]);
+      nalt++;
+      if (ab[a] < abmin) abmin = ab[a];
+    }
+    if (!ok[0]) { vh_obs("pearson_pairs_with_constant_column_not_judged", 1); continue; }
+    /* the function's comment names the quantity it computes RSQ and the code squares the coefficient: held to r^2 (header: "pearson correlation matrix") */
+    for (a = 0; a < 4; a++) if (ok[a] == 1) { ld d = fabsl((ld)got - rho[a] * rho[a]); judged = 1; if (d < best) { best = d; bi = a; } }
+    if (!judged) continue;
+    if (!failed_r && !(got >= -TOLC * (double)EPS * (double)cond[bi] && got <= 1.0 + TOLC * (double)EPS * (double)cond[bi])) {
+      vh_fail(c, "PearsonCorrelMatrix|range", "rsq[%zu][%zu] = %.17g is outside [0,1] (%zux%zu)", k, j, got, r, w); failed_r = 1;
+    }
+    (void)mxsave;
+    if (!near_(MX_PEARSON, got, rho[bi] * rho[bi], 2 * cond[bi])) {
+      const char *key = abmin < 1.0L + 1e-9L ? "PearsonCorrelMatrix|value|centred-sumsq-product-below-1" : "PearsonCorrelMatrix|value";
+      if (got == 0) vh_obs("pearson_cells_reported_zero", 1);
+      if (!(failed_v & (abmin < 1.0L + 1e-9L ? 1 : 2))) {
+        vh_fail(c, key, "rsq[%zu][%zu] = %.17g, definition gives r = %.17Lg, r^2 = %.17Lg (sum (x-mx)^2 * sum (y-my)^2 = %.6Lg; %zux%zu, %d admissible mean pairs)",
+                k, j, got, rho[bi], rho[bi] * rho[bi], ab[0], r, w, nalt);
+        failed_v |= abmin < 1.0L + 1e-9L ? 1 : 2;
+      }
+    } else vh_obs("pearson_cells_equal_to_the_squared_coefficient", 1);
+  }
+  DelMatrix(&P);
+}
+
+/* tie-free data: every column holds pairwise different values; *gap = smallest distance between two values of one column */
+static matrix *rnd_tiefree_matrix(vh_ctx *c, size_t r, size_t w, int sc, double *colgap)
+{
+  matrix *m; size_t i, j, l;
+  NewMatrix(&m, r, w);
+  for (j = 0; j < w; j++) {
+    colgap[j] = INFINITY;
+    for (i = 0; i < r; i++) {
+      int again, tries = 0;
+      do {
+        m->data[i][j] = gv(c, sc);
+        again = 0;
+        for (l = 0; l < i; l++) if (m->data[l][j] == m->data[i][j]) again = 1;
+      } while (again && ++tries < 100);
+      if (again) m->data[i][j] = (double)(i + 1) * 3.0e6;   /* never reached in practice; keeps the column tie-free */
+      for (l = 0; l < i; l++) { double g = fabs(m->data[l][j] - m->data[i][j]); if (g < colgap[j]) colgap[j] = g; }
+    }
+  }
+  return m;
+}
+static void check_spearman(vh_ctx *c, size_t r, size_t w, int sc)
+{
+  double *gap = malloc(sizeof(double) * (w + 1));
+  matrix *S = rnd_tiefree_matrix(c, r, w, sc, gap), *S0 = matrix_dup(S), *R = out_container(c);
+  size_t i, k, j, l;
+  int failed = 0;
+  SpearmanCorrelMatrix(S, R);
+  vh_obs("calls_SpearmanCorrelMatrix", 1);
+  if (R->row != w || R->col != w) { vh_fail(c, "SpearmanCorrelMatrix|shape", "%zux%zu for %zu columns", R->row, R->col, w); goto done; }
+  for (k = 0; k < w; k++) if (R->data[k][k] != 1.0) { vh_fail(c, "SpearmanCorrelMatrix|unit-diagonal", "rho[%zu][%zu] = %.17g (%zux%zu)", k, k, R->data[k][k], r, w); break; }
+  for (k = 0; k < w; k++) for (j = k + 1; j < w; j++) {
+    ld d2 = 0, rho, n = (ld)r;
+    double got = R->data[k][j];
+    int close_ = gap[k] < 1.001e-3 || gap[j] < 1.001e-3, bit;
+    if (memcmp(&R->data[k][j], &R->data[j][k], sizeof(double))) { vh_fail(c, "SpearmanCorrelMatrix|law-symmetric", "rho[%zu][%zu] = %.17g but rho[%zu][%zu] = %.17g", k, j, got, j, k, R->data[j][k]); k = w; break; }
+    for (i = 0; i < r; i++) {
+      long rk = 1, rj = 1;
+      for (l = 0; l < r; l++) { if (S0->data[l][k] < S0->data[i][k]) rk++; if (S0->data[l][j] < S0->data[i][j]) rj++; }
+      d2 += (ld)(rk - rj) * (ld)(rk - rj);
+    }
+    rho = 1 - 6 * d2 / (n * (n * n - 1));
+    vh_obs(close_ ? "spearman_pairs_values_closer_than_1e-3" : "spearman_pairs_values_separated", 1);
+    bit = close_ ? 1 : 2;
+    if (!(failed & (4 * bit)) && !(fabs(got) <= 1.0 + TOLC * (double)EPS)) { vh_fail(c, close_ ? "SpearmanCorrelMatrix|range|values-closer-than-1e-3" : "SpearmanCorrelMatrix|range", "rho[%zu][%zu] = %.17g is outside [-1,1] (%zux%zu)", k, j, got, r, w); failed |= 4 * bit; }
+    if (!near_(MX_SPEARMAN, got, rho, 2) && !(failed & bit)) {
+      vh_fail(c, close_ ? "SpearmanCorrelMatrix|value|values-closer-than-1e-3" : "SpearmanCorrelMatrix|value",
+              "rho[%zu][%zu] = %.17g, the ranks give %.17Lg (sum d^2 = %.0Lf; %zu tie-free rows, %zu columns, smallest gaps %.3g and %.3g)", k, j, got, rho, d2, r, w, gap[k], gap[j]);
+      failed |= bit;
+    }
+  }
+  if (!matrix_bitequal(S, S0)) vh_fail(c, "SpearmanCorrelMatrix|input-modified", "the %zux%zu operand changed", r, w);
+done:
+  free(gap);
+  DelMatrix(&S); DelMatrix(&S0); DelMatrix(&R);
+}
+
+static void check_descstat(vh_ctx *c, matrix *M, const colref *cr)
+{
+  size_t r = M->row, w = M->col, i, j;
+  matrix *D = out_container(c);
+  double *col = malloc(sizeof(double) * (r + 1));
+  unsigned failed = 0;   /* every clause is evaluated on every column and reported once per case */
+#define DS_CLAUSE(bit, cond, key, ...) do { if (!(cond) && !(failed & (1u << (bit)))) { failed |= 1u << (bit); vh_fail(c, key, __VA_ARGS__); } } while (0)
+  MatrixColDescStat(M, D);
+  vh_obs("calls_MatrixColDescStat", 1);
+  if (D->row != w || D->col != 13) { vh_fail(c, "MatrixColDescStat|shape", "%zux%zu expected %zux13", D->row, D->col, w); goto done; }
+  for (j = 0; j < w; j++) {
+    const double *g = D->data[j];
+    ld v = 0, hs = 0, hsa = 0, vp, vs, sdp, sds, amean = cr[j].sumabs / r;
+    size_t nzero = 0, nwin = 0;
+    double med;
+    for (i = 0; i < r; i++) {
+      ld x = M->data[i][j];
+      col[i] = M->data[i][j];
+      v += (x - cr[j].mean) * (x - cr[j].mean);
+      if (x == 0) nzero++; else { hs += 1 / x; hsa += fabsl(1 / x); if (fabsl(x) <= 1.0000001e-6L) nwin++; }
+    }
+    qsort(col, r, sizeof(double), dblcmp);
+    med = r % 2 ? col[r / 2] : (col[r / 2 - 1] + col[r / 2]) / 2.0;
+    vp = v / r; sdp = sqrtl(vp); vs = r > 1 ? v / (r - 1) : 0; sds = sqrtl(vs);
+    DS_CLAUSE(0, near_(MX_DS_AVG, g[0], cr[j].mean, amean), "MatrixColDescStat|mean", "column %zu of %zux%zu: %.17g expected %.17Lg", j, r, w, g[0], cr[j].mean);
+    DS_CLAUSE(1, fabs(g[1] - med) <= 4 * (double)EPS * fabs(med), "MatrixColDescStat|median", "column %zu of %zux%zu: %.17g expected %.17g", j, r, w, g[1], med);
+    if (nzero == 0 && fabsl(hs) > 1e3L * EPS * r * hsa) {   /* harmonic mean: defined for a column without zeros */
+      ld h = (ld)r / hs;
+      DS_CLAUSE(2, near_(MX_DS_HARM, g[2], h, fabsl(h) * hsa / fabsl(hs)), "MatrixColDescStat|harmonic-mean", "column %zu of %zux%zu: %.17g expected %.17Lg", j, r, w, g[2], h);
+      vh_obs("descstat_harmonic_means_judged", 1);
+    } else vh_obs("descstat_harmonic_means_not_judged", 1);
+    DS_CLAUSE(3, near_(MX_DS_VAR, g[3], vp, vp + sdp * amean), "MatrixColDescStat|population-variance", "column %zu of %zux%zu: %.17g expected %.17Lg", j, r, w, g[3], vp);
+    DS_CLAUSE(5, near_(MX_DS_SD, g[5], sdp, sdp + amean), "MatrixColDescStat|population-sd", "column %zu of %zux%zu: %.17g expected %.17Lg", j, r, w, g[5], sdp);
+    if (r >= 2) {
+      DS_CLAUSE(4, near_(MX_DS_VAR, g[4], vs, vs + sds * amean), "MatrixColDescStat|sample-variance", "column %zu of %zux%zu: %.17g expected %.17Lg", j, r, w, g[4], vs);
+      DS_CLAUSE(6, near_(MX_DS_SD, g[6], sds, sds + amean), "MatrixColDescStat|sample-sd", "column %zu of %zux%zu: %.17g expected %.17Lg", j, r, w, g[6], sds);
+    }
+    if (fabsl(cr[j].sum) > 1e3L * EPS * r * cr[j].sumabs) {   /* coefficient of variation: defined for a non-zero mean */
+      ld am = fabsl(cr[j].mean), cvp = 100 * sdp / cr[j].mean, cvs = 100 * sds / cr[j].mean;
+      DS_CLAUSE(7, near_(MX_DS_CV, g[7], cvp, 100 * ((sdp + amean) / am + sdp * amean / (am * am))), "MatrixColDescStat|population-cv", "column %zu of %zux%zu: %.17g expected %.17Lg", j, r, w, g[7], cvp);
+      if (r >= 2) DS_CLAUSE(8, near_(MX_DS_CV, g[8], cvs, 100 * ((sds + amean) / am + sds * amean / (am * am))), "MatrixColDescStat|sample-cv", "column %zu of %zux%zu: %.17g expected %.17Lg", j, r, w, g[8], cvs);
+      vh_obs("descstat_cv_judged", 1);
+    } else vh_obs("descstat_cv_not_judged", 1);
+    DS_CLAUSE(9, (ld)g[9] == cr[j].mn, "MatrixColDescStat|min", "column %zu of %zux%zu: %.17g expected %.17Lg", j, r, w, g[9], cr[j].mn);
+    DS_CLAUSE(10, (ld)g[10] == cr[j].mx, "MatrixColDescStat|max", "column %zu of %zux%zu: %.17g expected %.17Lg", j, r, w, g[10], cr[j].mx);
+    if (nwin == 0) DS_CLAUSE(11, g[11] == (double)nzero, "MatrixColDescStat|zero-count", "column %zu of %zux%zu: %.17g zeros reported, %zu present", j, r, w, g[11], nzero);
+    else vh_obs("descstat_zero_count_not_judged_values_below_1e-6", 1);
+    DS_CLAUSE(12, g[12] == 0.0, "MatrixColDescStat|missing-count", "column %zu of %zux%zu: %.17g missing values reported, none present", j, r, w, g[12]);
+  }
+#undef DS_CLAUSE
+done:
+  free(col);
+  DelMatrix(&D);
+}
+
+static void check_extreme_index(vh_ctx *c, matrix *M, int want_max)
+{
+  size_t r = M->row, w = M->col, i, j, row = 99, col = 99, row1 = 99, col1 = 99, nbest = 0, nbest_row0 = 0, nnear = 0;
+  const char *fn = want_max ? "MatrixGetMaxValueIndex" : "MatrixGetMinValueIndex", *cls;
+  char key[112];
+  double best = M->data[0][0];
+  for (i = 0; i < r; i++) for (j = 0; j < w; j++) if (want_max ? M->data[i][j] > best : M->data[i][j] < best) best = M->data[i][j];
+  for (i = 0; i < r; i++) for (j = 0; j < w; j++) {
+    if (M->data[i][j] == best) { nbest++; if (i == 0 && j >= 1) nbest_row0++; }
+    else if (fabs(M->data[i][j] - best) < 1.001e-3) nnear++;
+  }
+  if (want_max) { MatrixGetMaxValueIndex(M, &row, &col); MatrixGetMaxValueIndex(M, &row1, NULL); MatrixGetMaxValueIndex(M, NULL, &col1); }
+  else { MatrixGetMinValueIndex(M, &row, &col); MatrixGetMinValueIndex(M, &row1, NULL); MatrixGetMinValueIndex(M, NULL, &col1); }
+  vh_obs(want_max ? "calls_MatrixGetMaxValueIndex" : "calls_MatrixGetMinValueIndex", 3);
+  /* input classes: the extreme lies only in the first row right of column 0 / other cells lie within 1e-3 of it / neither */
+  cls = nbest == nbest_row0 ? "extreme-only-in-first-row" : nnear ? "other-cells-within-1e-3" : NULL;
+  vh_obs(cls == NULL ? "extreme_index_cases_separated" : nbest == nbest_row0 ? "extreme_index_cases_extreme_only_in_first_row" : "extreme_index_cases_other_cells_within_1e-3", 1);
+  if (row >= r || col >= w) { snprintf(key, sizeof key, "%s|index-range", fn); vh_fail(c, key, "[%zu][%zu] returned for a %zux%zu matrix", row, col, r, w); return; }
+  if (row1 != row || col1 != col) { snprintf(key, sizeof key, "%s|optional-outputs-agree", fn); vh_fail(c, key, "[%zu][%zu] with both outputs, row %zu / column %zu when asked alone (%zux%zu)", row, col, row1, col1, r, w); }
+  if (M->data[row][col] != best) {
+    if (cls) snprintf(key, sizeof key, "%s|value|%s", fn, cls); else snprintf(key, sizeof key, "%s|value", fn);
+    vh_fail(c, key, "[%zu][%zu] holds %.17g but the %s of the %zux%zu matrix is %.17g (%zu cells hold it, %zu of them in row 0 right of column 0; %zu other cells within 1e-3)",
+            row, col, M->data[row][col], want_max ? "maximum" : "minimum", r, w, best, nbest, nbest_row0, nnear);
+  }
+}
+
+static void case_matstat(vh_ctx *c)
+{
+  int sc = (int)vh_int(c, 0, 3);
+  size_t r = (size_t)vh_int(c, 0, 17), w = (size_t)vh_int(c, 0, 17), i, j;
+  matrix *M = rnd_matrix(c, r, w, sc), *M0 = matrix_dup(M), *O;
+  colref *cr = calloc(w + 1, sizeof *cr);
+
+  vh_class(c, "mstat-r%s-c%s-s%s", dimcls(r), dimcls(w), SCN[sc]);
+  vh_desc(c, "matrix statistics: %zux%zu, value scale %s", r, w, SCN[sc]);
+  if (r && w) vh_desc(c, " m00=%.17g", M->data[0][0]);
+  for (j = 0; j < w; j++) col_reference(M, j, &cr[j]);
+
+  if (r >= 1) { check_descstat(c, M, cr); vh_obs("kernel_calls", 1); }
+  if (r >= 2) { check_pearson(c, M, cr); vh_obs("kernel_calls", 1); }
+  if (r >= 1 && w >= 1) { check_extreme_index(c, M, 1); check_extreme_index(c, M, 0); vh_obs("kernel_calls", 6); }
+
+  /* x / (row sum) */
+  if (w >= 1) {
+    O = out_container(c);
+    MatrixRowCenterScaling(M, O);
+    vh_obs("calls_MatrixRowCenterScaling", 1);
+    if (O->row != r || O->col != w) vh_fail(c, "MatrixRowCenterScaling|shape", "%zux%zu expected %zux%zu", O->row, O->col, r, w);
+    else for (i = 0; i < r; i++) {
+      ld s = 0, sa = 0;
+      for (j = 0; j < w; j++) { s += M->data[i][j]; sa += fabsl((ld)M->data[i][j]); }
+      if (!(fabsl(s) > 1e3L * EPS * w * sa)) { vh_obs("rowcenterscaling_rows_not_judged_sum_cancels", 1); continue; }
+      for (j = 0; j < w; j++) {
+        ld e = (ld)M->data[i][j] / s;
+        if (!near_(MX_ROWCS, O->data[i][j], e, fabsl(e) * (1 + sa / fabsl(s)))) { vh_fail(c, "MatrixRowCenterScaling|value", "out[%zu][%zu] = %.17g expected %.17Lg (row sum %.17Lg; %zux%zu)", i, j, O->data[i][j], e, s, r, w); i = r; break; }
+      }
+    }
+    DelMatrix(&O);
+    vh_obs("kernel_calls", 1);
+  }
+  /* standard normal variate: (x - row mean) / row sample sd */
+  if (w >= 2) {
+    O = out_container(c);
+    MatrixSVNScaling(M, O);
+    vh_obs("calls_MatrixSVNScaling", 1);
+    if (O->row != r || O->col != w) vh_fail(c, "MatrixSVNScaling|shape", "%zux%zu expected %zux%zu", O->row, O->col, r, w);
+    else for (i = 0; i < r; i++) {
+      ld s = 0, sa = 0, mean, v = 0, sd;
+      for (j = 0; j < w; j++) { s += M->data[i][j]; sa += fabsl((ld)M->data[i][j]); }
+      mean = s / w;
+      for (j = 0; j < w; j++) v += ((ld)M->data[i][j] - mean) * ((ld)M->data[i][j] - mean);
+      sd = sqrtl(v / (w - 1));
+      if (!(sd > 1e3L * EPS * sa)) { vh_obs("svnscaling_rows_not_judged_no_spread", 1); continue; }
+      for (j = 0; j < w; j++) {
+        ld e = ((ld)M->data[i][j] - mean) / sd;
+        if (!near_(MX_SVN, O->data[i][j], e, (fabsl((ld)M->data[i][j]) + sa) / sd + fabsl(e) * (1 + sa / sd))) {
+          vh_fail(c, "MatrixSVNScaling|value", "out[%zu][%zu] = %.17g expected %.17Lg (row mean %.17Lg sd %.17Lg; %zux%zu)", i, j, O->data[i][j], e, mean, sd, r, w); i = r; break;
+        }
+      }
+    }
+    DelMatrix(&O);
+    vh_obs("kernel_calls", 1);
+  }
+  if (!matrix_bitequal(M, M0)) vh_fail(c, "matrix-statistics|input-modified", "a read-only kernel changed its %zux%zu operand", r, w);
+  if (r >= 2) { check_spearman(c, r, w, sc); vh_obs("kernel_calls", 1); }
+  vh_obs("matrix_statistics_cases", 1);
+  free(cr);
+  DelMatrix(&M); DelMatrix(&M0);
+}
+
+/* ------------------------------------------------------------------------------------------ element-wise transforms, identity, v / m */
+static void case_transform(vh_ctx *c)
+{
+  int sc = (int)vh_int(c, 0, 3);
+  size_t r = (size_t)vh_int(c, 0, 17), w = (size_t)vh_int(c, 0, 17), n, i, j;
+  matrix *M = rnd_matrix(c, r, w, sc), *M0 = matrix_dup(M), *A, *L, *A0, *L0, *O, *I;
+
+  vh_class(c, "xform-r%s-c%s-s%s", dimcls(r), dimcls(w), SCN[sc]);
+  vh_desc(c, "element-wise transforms: %zux%zu, value scale %s", r, w, SCN[sc]);
+  if (r && w) vh_desc(c, " m00=%.17g", M->data[0][0]);
+  A = matrix_dup(M); L = matrix_dup(M);
+  for (i = 0; i < r; i++) for (j = 0; j < w; j++) { A->data[i][j] = fabs(M->data[i][j]); if (!(M->data[i][j] > -1.0)) L->data[i][j] = fabs(M->data[i][j]); }
+
+  A0 = matrix_dup(A); L0 = matrix_dup(L);
+
+  O = out_container(c);
+  Matrix2ABSMatrix(M, O);
+  if (O->row != r || O->col != w) vh_fail(c, "Matrix2ABSMatrix|shape", "%zux%zu expected %zux%zu", O->row, O->col, r, w);
+  else if (!matrix_bitequal(O, A)) vh_fail(c, "Matrix2ABSMatrix|value", "the result is not |m| cell by cell (%zux%zu)", r, w);
+  DelMatrix(&O);
+
+  O = out_container(c);
+  Matrix2SquareMatrix(M, O);
+  if (O->row != r || O->col != w) vh_fail(c, "Matrix2SquareMatrix|shape", "%zux%zu expected %zux%zu", O->row, O->col, r, w);
+  else for (i = 0; i < r; i++) for (j = 0; j < w; j++) {
+    ld e = (ld)M->data[i][j] * M->data[i][j];
+    if (!near_(MX_EW_SQUARE, O->data[i][j], e, e)) { vh_fail(c, "Matrix2SquareMatrix|value", "out[%zu][%zu] = %.17g expected %.17Lg", i, j, O->data[i][j], e); i = r; break; }
+  }
+  DelMatrix(&O);
+
+  O = out_container(c);
+  Matrix2SQRTMatrix(A, O);
+  if (O->row != r || O->col != w) vh_fail(c, "Matrix2SQRTMatrix|shape", "%zux%zu expected %zux%zu", O->row, O->col, r, w);
+  else for (i = 0; i < r; i++) for (j = 0; j < w; j++) {
+    ld e = sqrtl((ld)A0->data[i][j]);
+    if (!near_(MX_EW_SQRT, O->data[i][j], e, e)) { vh_fail(c, "Matrix2SQRTMatrix|value", "out[%zu][%zu] = %.17g expected %.17Lg", i, j, O->data[i][j], e); i = r; break; }
+  }
+  DelMatrix(&O);
+
+  O = out_container(c);
+  Matrix2LogMatrix(L, O);
+  if (O->row != r || O->col != w) vh_fail(c, "Matrix2LogMatrix|shape", "%zux%zu expected %zux%zu", O->row, O->col, r, w);
+  else for (i = 0; i < r; i++) for (j = 0; j < w; j++) {
+    ld e = log10l(1 + (ld)L0->data[i][j]);
+    if (!near_(MX_EW_LOG, O->data[i][j], e, 1 + fabsl(e))) { vh_fail(c, "Matrix2LogMatrix|value", "out[%zu][%zu] = %.17g expected log10(1 + %.17g) = %.17Lg", i, j, O->data[i][j], L0->data[i][j], e); i = r; break; }
+  }
+  DelMatrix(&O);
+  if (!matrix_bitequal(M, M0) || !matrix_bitequal(A, A0) || !matrix_bitequal(L, L0)) vh_fail(c, "element-wise-transforms|input-modified", "a transform changed its %zux%zu operand", r, w);
+  vh_obs("calls_Matrix2ABSMatrix", 1); vh_obs("calls_Matrix2SquareMatrix", 1); vh_obs("calls_Matrix2SQRTMatrix", 1); vh_obs("calls_Matrix2LogMatrix", 1);
+  DelMatrix(&A); DelMatrix(&L); DelMatrix(&A0); DelMatrix(&L0); DelMatrix(&M); DelMatrix(&M0);
+
+  /* identity of order 0..17 in a freshly created matrix */
+  n = (size_t)vh_int(c, 0, 17);
+  NewMatrix(&I, n, n);
+  GenIdentityMatrix(I);
+  vh_obs("calls_GenIdentityMatrix", 1);
+  if (I->row != n || I->col != n) vh_fail(c, "GenIdentityMatrix|shape", "%zux%zu expected order %zu", I->row, I->col, n);
+  else for (i = 0; i < n; i++) for (j = 0; j < n; j++) if (I->data[i][j] != (i == j ? 1.0 : 0.0)) { vh_fail(c, "GenIdentityMatrix|value", "i[%zu][%zu] = %.17g (order %zu)", i, j, I->data[i][j], n); i = n; break; }
+  DelMatrix(&I);
+  vh_hist("identity_order", (long)n);
+
+  /* r = v / m, i.e. r m = v, for a square m with singular values in [0.5, 2] times a scale */
+  n = (size_t)vh_int(c, 0, 17);
+  {
+    ldm *Q1 = ldm_new(n, n), *Q2 = ldm_new(n, n), *B = ldm_new(n, n), *Bt, *V = ldm_new(n, 1), *X = NULL;
+    ld *sv = calloc(n + 1, sizeof(ld)), scale = sc == 0 ? 1e-6L : sc == 1 ? 1 : sc == 2 ? 1e6L : (ld)vh_logunif(c, -6.0, 6.0), l1 = 0;
+    size_t l;
+    matrix *m, *m0;
+    dvector *v = rnd_dvector(c, n, sc), *v0 = dvec_dup(v), *res;
+    or_random_orthogonal(Q1, gauss_cb, c); or_random_orthogonal(Q2, gauss_cb, c);
+    for (i = 0; i < n; i++) sv[i] = (ld)vh_range(c, 0.5, 2.0);
+    for (i = 0; i < n; i++) for (j = 0; j < n; j++) { ld s = 0; for (l = 0; l < n; l++) s += LM(Q1, i, l) * sv[l] * LM(Q2, j, l); LM(B, i, j) = (ld)(double)(scale * s); }
+    m = matrix_of_ldm(B); m0 = matrix_dup(m);
+    if (vh_coin(c, 0.5)) initDVector(&res); else { NewDVector(&res, (size_t)vh_int(c, 0, 20)); DVectorSet(res, POISON); }
+    DVectorTransposedMatrixDivision(v, m, res);
+    vh_obs("calls_DVectorTransposedMatrixDivision", 1);
+    vh_hist("vector_matrix_division_order", (long)n);
+    if (res->size != n) vh_fail(c, "DVectorTransposedMatrixDivision|shape", "result size %zu expected %zu", res->size, n);
+    else if (n >= 1) {
+      Bt = ldm_t(B);
+      for (i = 0; i < n; i++) LM(V, i, 0) = v0->data[i];
+      if (or_lu_solve(Bt, V, &X)) {
+        for (i = 0; i < n; i++) l1 += fabsl(LM(X, i, 0));
+        for (i = 0; i < n; i++) if (!near_(MX_VTMDIV, res->data[i], LM(X, i, 0), 4 * l1)) {
+          vh_fail(c, "DVectorTransposedMatrixDivision|value", "r[%zu] = %.17g but the solution of r m = v has %.17Lg (order %zu, singular values in [0.5,2] x %.3Lg)", i, res->data[i], LM(X, i, 0), n, scale);
+          break;
+        }
+        ldm_free(X);
+      } else vh_fail(c, "harness|oracle", "the reference solver rejected a matrix of condition <= 4");
+      ldm_free(Bt);
+    }
+    if (!matrix_bitequal(m, m0) || dvector_maxdiff(v, v0) != 0) vh_fail(c, "DVectorTransposedMatrixDivision|input-modified", "an operand changed (order %zu)", n);
+    free(sv); ldm_free(Q1); ldm_free(Q2); ldm_free(B); ldm_free(V);
+    DelMatrix(&m); DelMatrix(&m0); DelDVector(&v); DelDVector(&v0); DelDVector(&res);
+  }
+  vh_obs("transform_kernel_cases", 1);
+  vh_obs("kernel_calls", 6);
+}
+
 static void run_case(vh_ctx *c)
 {
-  int kind = (int)(c->idx % 10), i;
+  int kind = (int)(c->idx % 12), i;
   for (i = 0; i < NMX; i++) g_mx[i] = 0;
-  if (kind <= 4) case_product(c, c->idx / 10 * 5 + kind);
+  if (kind <= 4) case_product(c, c->idx / 12 * 5 + kind);
   else if (kind <= 6) case_matrix(c);
   else if (kind == 7) case_vector(c);
-  else case_tensor(c);
+  else if (kind <= 9) case_tensor(c);
+  else if (kind == 10) case_matstat(c);
+  else case_transform(c);
   for (i = 0; i < NMX; i++) if (g_mx[i] > 0) vh_max(MXNAME[i], g_mx[i]);
 }
 
